@@ -3,9 +3,9 @@ import json, os
 import vlib
 
 
-def simple_trace_check(res, work, cmd, module, cfg, start_marker, tier, seed, xss=False, extra=()):
+def simple_trace_check(res, work, cmd, module, cfg, start_marker, tier, seed, xss=False, extra=(), name=None):
     """run `vh <cmd>`, validate its trace with <module>, judge FAIL lines; returns meta"""
-    out = os.path.join(work, cmd)
+    out = os.path.join(work, name or cmd)
     os.makedirs(out)
     vlib.stage_specs(out)
     vlib.run_vh([cmd, "-out", out, "-seed", seed, "-tier", tier] + list(extra), timeout=2400)
